@@ -104,7 +104,7 @@ Proof. exact label_attaches_to_next_statement. Qed.
 Print Assumptions C05_label_attaches_to_next_statement.
 
 (* COMPLETENESS at token level (proofs/StmtTrip.v): every statement x built from expression statements, `;`, return /
-   break / continue / goto, if with and without else, while, do-while, for with any of its clauses absent and
+   break / continue / goto, labelled statements (`name: statement`, the label attaches to the ONE statement after it), if with and without else, while, do-while, for with any of its clauses absent and
    brace-enclosed blocks, nested in any way - written as the token sequence [stoks rp x], is parsed by p_pragmacomp_or_statement (the production behind every
    sub-statement position) to exactly x: each `else` goes to the nearest if that can take it, loop bodies and branches are
    exactly one statement, nothing is lost or reordered.  Side conditions = C's dangling-else rule (swf, and no `else` after
@@ -331,7 +331,7 @@ Example C07_expression_example :
                              K_COMMA; K_ID; K_LPAREN; K_INT_CONST_DEC; K_COMMA; K_LPAREN; K_ID; K_COMMA; K_ID; K_RPAREN; K_RPAREN].
 Proof. exact expression_example. Qed.
 
-(* STATEMENTS over that expression language: expression statements, `;`, return / break / continue / goto, if with and
+(* STATEMENTS over that expression language: expression statements, `;`, return / break / continue / goto, labelled statements, if with and
    without else, while, do-while, for with every clause present or absent, and brace-enclosed blocks of statements (the
    scope stack that `{` and `}` push and pop at token delivery is threaded through StreamLib.Up), nested in any way.  Parser side:
    whenever p_pragmacomp_or_statement (the production behind every sub-statement position) finds the tokens [stoks rp x]
@@ -361,6 +361,11 @@ Print Assumptions C07_statement_text_is_its_tokens.
 Example C07_statement_example :
   swf ex_s /\\ exists t, generate_stmt nat false 80 (embS nat ex_s) true Z0 = GOk (t, Z0) /\\ despace2 t = spell (stoks false ex_s).
 Proof. destruct statement_example as [H [t [H1 [H2 _]]]]. split; [exact H|]. exists t. split; assumption. Qed.
+
+(* ... and labels: `{ again: if (a) in: a++;  out: ; }` *)
+Example C07_label_example :
+  swf ex_l /\\ exists t, generate_stmt nat false 80 (embS nat ex_l) true Z0 = GOk (t, Z0) /\\ despace2 t = spell (stoks false ex_l).
+Proof. destruct label_example as [H [t [H1 [H2 _]]]]. split; [exact H|]. exists t. split; assumption. Qed.
 ''')
 mk("C08","regenerated C means the same as the original to a C compiler","RegenExamples"," Generator ParamProofs GenParam",
 '''(* what the generator emits does not depend on coordinates (all ASTs) - see C07 *)
